@@ -26,6 +26,7 @@ def main(argv=None) -> int:
 
     logging.disable(logging.WARNING)
     prop = args.prop.upper()
+    report.CURRENT_PROP = prop
     try:
         module = importlib.import_module(f"props.{prop.lower()}")
     except Exception:
